@@ -72,6 +72,23 @@ def check(ctx, rep):
                 for m2, call2 in callers)
             if covered and len({m2 for m2, _ in callers}) == 1:
                 root, inline_fn, missing = callers[0][0], f, []
+        # one object per file: the pickle's STOP opcode is what makes every proper prefix fail.  A reader that takes
+        # records until end-of-file (a load in a loop, or an Unpickler used more than once) accepts a file that was
+        # cut at a record boundary as a complete, shorter listing.
+        from ..structure import enclosing_loops
+
+        in_loop = bool(enclosing_loops(f.node, s.call))
+        if s.target.name == "pickle.Unpickler":
+            var = None
+            for n in ast.walk(f.node):
+                if isinstance(n, ast.Assign) and n.value is s.call and isinstance(n.targets[0], ast.Name):
+                    var = n.targets[0].id
+            loads = [n for n in ast.walk(f.node) if isinstance(n, ast.Call) and isinstance(n.func, ast.Attribute) and n.func.attr == "load"
+                     and (norm(n.func.value) == var or n.func.value is s.call)]
+            in_loop = in_loop or len(loads) > 1 or any(enclosing_loops(f.node, l) for l in loads)
+        if in_loop:
+            problems.append("records are read until end-of-file: a cache file cut off at a record boundary (or at byte 0) is accepted as a complete, "
+                            "shorter listing instead of being regenerated")
         if missing:
             problems.append(f"a truncated or zero-filled cache file raises {missing[0]} (also {', '.join(missing[1:4])}) which nothing here catches: "
                             "the request fails instead of regenerating the listing")
